@@ -39,8 +39,11 @@ Inner(el, v) ==
                     Meth(Meth(x, "trks", <<>>), "Count", <<>>)} ELSE {})
         \cup (IF el \in {IntT, FloatT} THEN {BinOp("+", x, IntC(1)), Cmp(">", x, IntC(1))} ELSE {})
 
+FieldNames(ty) == IF ty.k # "ty" \/ ty.s \notin ClassNames THEN {}
+                  ELSE {ClassOf(ty.s).fields[i].name : i \in 1..Len(ClassOf(ty.s).fields)}
 Ext(b, ty) ==
     {Meth(b, m, <<>>) : m \in MethodNames(ty)}
+    \cup {Attr(b, f) : f \in FieldNames(ty)}
     \cup (IF IsIterableT(ty) THEN
             {Meth(b, "First", <<>>), Meth(b, "Count", <<>>), Meth(b, "Second", <<>>), Sub(b, IntC(0)),
              Fn("len", <<b>>)}
